@@ -174,14 +174,17 @@ def _gen_handlers(rng):
     return hs
 
 
-HIER_MRO = {"chain3": 3, "diamond": 4}      # number of user classes, most derived first
+# number of user classes, most derived first.  mixin_after: Leaf(HasObservables, Stock); mixin_both: Leaf(M1, HasObservables, M2);
+# diamond_mid: P; B(HasObservables, P), C(P); D(B, C) - HasObservables sits in the MIDDLE of the mro, observables may
+# live on plain classes that come after it
+HIER_MRO = {"chain3": 3, "diamond": 4, "mixin_after": 2, "mixin_both": 3, "diamond_mid": 4}
 
 
 def _gen_hier(rng, decl):
     """a deeper hierarchy for the same effective attributes: chain A <- B <- C, or diamond A; B(A), C(A); D(B, C).
     bind = [mro position (0 = the instantiated class), attribute id, kind, fallback]; for every attribute the binding at
     the smallest mro position is the effective one (= decl), classes further along the mro may bind it to anything"""
-    shape = rng.choice(["chain3", "diamond"])
+    shape = rng.choice(["chain3", "diamond", "mixin_after", "mixin_both", "diamond_mid"])
     n = HIER_MRO[shape]
     bind, extra = [], []
     for i, d in enumerate(decl):
@@ -553,18 +556,34 @@ def _build_class(decl, extra=(), hier=None):
                 if v is not None:
                     setattr(self, f"o{i}", list(v) if isinstance(v, list) else v)
         nss[0]["__init__"] = __init__
-        if hier["shape"] == "chain3":
+        shape = hier["shape"]
+        if shape == "chain3":
             a = type("A", (HasObservables,), nss[2])
             b = type("B", (a,), nss[1])
             leaf = type("C", (b,), nss[0])
             want = [leaf, b, a]
-        else:
+        elif shape == "diamond":
             a = type("A", (HasObservables,), nss[3])
             b = type("B", (a,), nss[1])
             c = type("C", (a,), nss[2])
             leaf = type("D", (b, c), nss[0])
             want = [leaf, b, c, a]
-        if list(leaf.__mro__[:len(want)]) != want:
+        elif shape == "mixin_after":
+            st = type("Stock", (), nss[1])
+            leaf = type("Tracked", (HasObservables, st), nss[0])
+            want = [leaf, st]
+        elif shape == "mixin_both":
+            m1 = type("M1", (), nss[1])
+            m2 = type("M2", (), nss[2])
+            leaf = type("T", (m1, HasObservables, m2), nss[0])
+            want = [leaf, m1, m2]
+        else:   # diamond_mid
+            pl = type("P", (), nss[3])
+            b = type("B", (HasObservables, pl), nss[1])
+            c = type("C", (pl,), nss[2])
+            leaf = type("D", (b, c), nss[0])
+            want = [leaf, b, c, pl]
+        if [k for k in leaf.__mro__ if k in want] != want or HasObservables not in leaf.__mro__:
             raise RuntimeError("driver: unexpected mro")
         return leaf
     base_ns, sub_ns = {}, {}
